@@ -335,7 +335,11 @@ with vflds := VFNil | VFCons (a : name) (x : val) (r : vflds)
 with vlist := VLNil | VLCons (x : val) (r : vlist).
 
 (* new<T>View<V> then the response body constructor (whose type is expr.Project of the
-   result type): keep the attributes the node lists, nested nodes under their own view *)
+   result type — of the per-response body type when the response carries some attributes in
+   headers or cookies): keep the attributes the node lists, nested nodes under their own view.
+   The value is what crosses the wire WHEREVER the response puts it: attributes mapped to a
+   header / a cookie are read back from there by the harness (their transport encoding is the
+   business of properties C02 / C03). *)
 Fixpoint restrict (e : env) (k : nkey) (x : val) : val :=
   match x with
   | VLeaf n => VLeaf n
